@@ -5,7 +5,7 @@ HERE="$(cd "$(dirname "${BASH_SOURCE[0]}")" && pwd)"
 export CARGO_NET_OFFLINE=true
 mkdir -p "$HERE/.build"
 # native replay driver (links /repo by path)
-CARGO_TARGET_DIR="$HERE/.build/replay" cargo build --release --offline --manifest-path "$HERE/replay/Cargo.toml"
+RUSTFLAGS="--cfg riti_verif" CARGO_TARGET_DIR="$HERE/.build/replay" cargo build --release --offline --manifest-path "$HERE/replay/Cargo.toml"
 # warm the Kani target dir (compiles the dependency graph once); harmless if it fails here,
 # every check rebuilds what it needs and reports a failing build as inconclusive
 python3-vt "$HERE/lib/warm.py" || true
